@@ -1,5 +1,6 @@
 import Driver.Util
 import AwsVerif.Model.Lht
+import AwsVerif.Model.LhtImpl
 /-! Driver for the linked hash table / cache model (C18).  Op language:
 `init <lht|fifo|lifo|lru> <max> <keyDtor 0|1> <valDtor 0|1> <hashmode>`, `put <ident> <ptr> <val>`,
 `find <ident>`, `findmv <ident>`, `remove <ident>`, `clear`, `mvend <ident>`, `uselru`, `getmru`. -/
@@ -94,5 +95,107 @@ def step (s : Option Cache) (t : List String) : Option Cache × List String :=
     (some c', [s!"P getmru {showVal r}"] ++ showState c')
   | _, _ => (s, ["bad-op"])
 
-def component : Component := { σ := Option Cache, init := none, step := step }
+/-! ### the implementation-level model (`Model/LhtImpl.lean`: C02 hash table + C09 list) run alongside:
+one `W impl` line per call with the hash table's slots and the list walk, compared with the real
+`aws_hash_table` slots (through `private/hash_table_impl.h`) and the real list. -/
+
+open AwsVerif in
+structure DS where
+  c : Option Cache
+  impl : Option LhtImpl.State
+  hm : Nat
+
+/-- the harness's `s_hash` per hash mode -/
+def hashFn (hm : Nat) (i : Nat) : Nat :=
+  match hm with
+  | 1 => 7
+  | 2 => i % 2
+  | 3 => 0
+  | _ => (i * 0x9E3779B97F4A7C15) % 2^64
+
+open AwsVerif in
+def outState {α : Type} : LhtImpl.Out α → Option LhtImpl.State
+  | .ok s _ _ => some s
+  | _ => none
+
+open AwsVerif in
+/-- the node at the front / the node before the back, as the caches' `put` finds them -/
+def victimNode (p : Policy) (s : LhtImpl.State) : Option LhtImpl.NodeId :=
+  match p with
+  | .lifo => match (s.heap s.list.tail).prev with
+    | some b => (s.heap b).prev
+    | none => none
+  | _ => (s.heap s.list.head).next
+
+open AwsVerif in
+def implApply (hm : Nat) (c : Cache) (s : LhtImpl.State) (t : List String) : Option LhtImpl.State :=
+  let h := hashFn hm
+  match t with
+  | ["put", i, p, v] =>
+    match outState (LhtImpl.put h s ⟨i.toNat!, p.toNat!⟩ v.toNat!) with
+    | none => none
+    | some s1 =>
+      if c.policy != .none && LhtImpl.count s1 > c.max then
+        match victimNode c.policy s1 with
+        | some n => outState (LhtImpl.remove h s1 (s1.nodeKey n))
+        | none => none
+      else some s1
+  | ["find", i] =>
+    if c.policy == .lru then outState (LhtImpl.findMove h s ⟨i.toNat!, 99⟩)
+    else outState (LhtImpl.find h s ⟨i.toNat!, 99⟩)
+  | ["findmv", i] => outState (LhtImpl.findMove h s ⟨i.toNat!, 99⟩)
+  | ["remove", i] => outState (LhtImpl.remove h s ⟨i.toNat!, 99⟩)
+  | ["clear"] => outState (LhtImpl.clear s)
+  | ["mvend", i] =>
+    match LinkedList.toList s.heap s.list (s.next + 1) with
+    | none => none
+    | some ns => match ns.find? (fun n => (s.nodeKey n).ident == i.toNat!) with
+      | some n => outState (LhtImpl.moveToEnd s n)
+      | none => some s
+  | ["uselru"] =>
+    match (s.heap s.list.head).next with
+    | some n => if n == s.list.tail then some s else outState (LhtImpl.moveToEnd s n)
+    | none => none
+  | ["getmru"] => some s
+  | _ => some s
+
+open AwsVerif in
+def showImpl : Option LhtImpl.State → String
+  | none => "W impl lost"
+  | some s =>
+    let slots := (List.range s.ht.slots.size).filterMap fun i =>
+      match HashTable.rd s.ht.slots i with
+      | some e =>
+        let k := LhtImpl.unHk e.key
+        let v := match e.val with | some n => toString (s.nodeVal n) | none => "NULL"
+        some s!"{i}:{k.ident}.{k.ptr}={v}"
+      | none => none
+    let fwd := match LhtImpl.iterate s (s.next + 1) with
+      | some es => joinOrDash (es.map fun (e : Entry) => toString e.2)
+      | none => "broken"
+    let bwd := match LinkedList.toListRev s.heap s.list (s.next + 1) with
+      | some ns => joinOrDash (ns.map fun n => toString (s.nodeVal n))
+      | none => "broken"
+    s!"W impl size={s.ht.size} cnt={s.ht.entryCount} slots {joinOrDash slots} list {fwd} rlist {bwd}"
+
+open AwsVerif in
+def stepAll (d : DS) (t : List String) : DS × List String :=
+  let (c', lines) := step d.c t
+  if lines == ["bad-op"] then (d, lines) else
+  match t with
+  | ["init", _, m, kd, vd, hm] =>
+    let impl := match LhtImpl.init (parseSize? m).get! (kd == "1") (vd == "1") with
+      | .ok s => some s
+      | .error _ => none
+    ({ c := c', impl := impl, hm := hm.toNat! }, lines)
+  | _ =>
+    match d.c with
+    | none => ({ d with c := c' }, lines)
+    | some c =>
+      let impl' := match d.impl with
+        | some s => implApply d.hm c s t
+        | none => none
+      ({ d with c := c', impl := impl' }, lines ++ [showImpl impl'])
+
+def component : Component := { σ := DS, init := { c := none, impl := none, hm := 0 }, step := stepAll }
 end Driver.LhtD
